@@ -17,8 +17,8 @@ variable {cfg : WireCfg ℚ} {losses delays : List ℚ} {arrivals : List ℚ}
 variable {s : KS} {a : A} {q : QEntry ℚ} {rest : List (QEntry ℚ)}
 
 /-- **every configuration step is sound** -/
-theorem astep_sound {now : ℚ} {a' : A} {outs new : List (Int × ℚ)}
-    (hi : AInv cfg losses delays arrivals a now outs) (hq : IsMin a q) (hs : AStep cfg losses delays a q a' new) :
+theorem astep_sound {now : ℚ} {a' : A} {outs new : List (Int × ℚ)} {lf : List Int}
+    (hi : AInv cfg losses delays arrivals a now outs) (hq : IsMin a q) (hs : AStep cfg losses delays a q a' new lf) :
     AInv cfg losses delays arrivals a' q.time (outs ++ new) ∧ a'.mu + 1 ≤ a.mu := by
   have hi' := hi.advance hq
   cases hs with
@@ -53,8 +53,8 @@ theorem isMin_of_pop (hk : KInv s a) (hp : popMin s.agenda = some (q, rest)) :
 /-- **one kernel step = one configuration step** -/
 theorem kstep (fuel : Nat) {outs : List (Int × ℚ)} (hk : KInv s a)
     (hi : AInv cfg losses delays arrivals a s.now outs) (hp : popMin s.agenda = some (q, rest)) :
-    ∃ s' a' new, step (body cfg losses delays) (fuel + 1) s = .ok s' ∧ KInv s' a' ∧ AStep cfg losses delays a q a' new ∧
-      s'.now = q.time ∧ outsOf s'.trace = outsOf s.trace ++ new := by
+    ∃ s' a' new lf, step (body cfg losses delays) (fuel + 1) s = .ok s' ∧ KInv s' a' ∧ AStep cfg losses delays a q a' new lf ∧
+      s'.now = q.time ∧ outsOf s'.trace = outsOf s.trace ++ new ∧ leftsOf s'.trace = leftsOf s.trace ++ lf := by
   obtain ⟨hmin, hperm⟩ := isMin_of_pop hk hp
   have hq := hmin.1
   simp only [A.entries, List.mem_append] at hq
@@ -81,9 +81,9 @@ theorem kstep (fuel : Nat) {outs : List (Int × ℚ)} (hk : KInv s a)
     | init q0 =>
       simp only [hwire, WPhase.entries, List.mem_singleton] at hq; subst hq
       rw [hwire] at hpa
-      obtain ⟨s', h1, h2, h3, h4⟩ :=
+      obtain ⟨s', h1, h2, h3, h4, h5⟩ :=
         kstep_wireInit (cfg := cfg) (losses := losses) (delays := delays) fuel hk hwire hpa.2.2.1 hp hrest
-      exact ⟨s', _, [], h1, h2, AStep.wireInit a q _ hwire, h3, by simpa using h4⟩
+      exact ⟨s', _, [], [], h1, h2, AStep.wireInit a q _ hwire, h3, by simpa using h4, by simpa using h5⟩
     | H g id q0 t0 nl nd =>
       simp only [hwire, WPhase.entries, List.mem_singleton] at hq; subst hq
       rw [hwire] at hpa
@@ -93,34 +93,33 @@ theorem kstep (fuel : Nat) {outs : List (Int × ℚ)} (hk : KInv s a)
       | true =>
         cases hit : a.items with
         | nil =>
-          obtain ⟨s', h1, h2, h3, h4⟩ := kstep_serveLostIdle (delays := delays) fuel hk hwire hid hnow hl hit hp hrest
-          exact ⟨s', _, [], h1, h2, AStep.serveLostIdle a q g _ id t0 nl nd hwire hl hit, h3, by simpa using h4⟩
+          obtain ⟨s', h1, h2, h3, h4, h5⟩ := kstep_serveLostIdle (delays := delays) fuel hk hwire hid hnow hl hit hp hrest
+          exact ⟨s', _, [], _, h1, h2, AStep.serveLostIdle a q g _ id t0 nl nd hwire hl hit, h3, by simpa using h4, h5⟩
         | cons i is =>
-          obtain ⟨s', h1, h2, h3, h4⟩ := kstep_serveLostNext (delays := delays) fuel hk hwire hid hnow hl hit hp hrest
-          exact ⟨s', _, [], h1, h2, AStep.serveLostNext a q _ g _ id t0 nl nd i is hwire hl hit ⟨rfl, rfl⟩, h3,
-            by simpa using h4⟩
+          obtain ⟨s', h1, h2, h3, h4, h5⟩ := kstep_serveLostNext (delays := delays) fuel hk hwire hid hnow hl hit hp hrest
+          exact ⟨s', _, [], _, h1, h2, AStep.serveLostNext a q _ g _ id t0 nl nd i is hwire hl hit ⟨rfl, rfl⟩, h3, by simpa using h4, h5⟩
       | false =>
         by_cases hw : q.time - a.ctOf id < draw delays nd
-        · obtain ⟨s', h1, h2, h3, h4⟩ := kstep_serveWait fuel hk hwire hid hnow hl hw hp hrest
-          exact ⟨s', _, [], h1, h2, AStep.serveWait a q _ g _ id t0 nl nd hwire hl hw ⟨rfl, rfl⟩, h3, by simpa using h4⟩
+        · obtain ⟨s', h1, h2, h3, h4, h5⟩ := kstep_serveWait fuel hk hwire hid hnow hl hw hp hrest
+          exact ⟨s', _, [], [], h1, h2, AStep.serveWait a q _ g _ id t0 nl nd hwire hl hw ⟨rfl, rfl⟩, h3, by simpa using h4, by simpa using h5⟩
         · cases hit : a.items with
           | nil =>
-            obtain ⟨s', h1, h2, h3, h4⟩ := kstep_serveOutIdle fuel hk hwire hid hnow hl hw hit hp hrest
-            exact ⟨s', _, _, h1, h2, AStep.serveOutIdle a q g _ id t0 nl nd hwire hl hw hit, h3, h4⟩
+            obtain ⟨s', h1, h2, h3, h4, h5⟩ := kstep_serveOutIdle fuel hk hwire hid hnow hl hw hit hp hrest
+            exact ⟨s', _, _, _, h1, h2, AStep.serveOutIdle a q g _ id t0 nl nd hwire hl hw hit, h3, h4, h5⟩
           | cons i is =>
-            obtain ⟨s', h1, h2, h3, h4⟩ := kstep_serveOutNext fuel hk hwire hid hnow hl hw hit hp hrest
-            exact ⟨s', _, _, h1, h2, AStep.serveOutNext a q _ g _ id t0 nl nd i is hwire hl hw hit ⟨rfl, rfl⟩, h3, h4⟩
+            obtain ⟨s', h1, h2, h3, h4, h5⟩ := kstep_serveOutNext fuel hk hwire hid hnow hl hw hit hp hrest
+            exact ⟨s', _, _, _, h1, h2, AStep.serveOutNext a q _ g _ id t0 nl nd i is hwire hl hw hit ⟨rfl, rfl⟩, h3, h4, h5⟩
     | T t id q0 nl nd =>
       simp only [hwire, WPhase.entries, List.mem_singleton] at hq; subst hq
       cases hit : a.items with
       | nil =>
-        obtain ⟨s', h1, h2, h3, h4⟩ :=
+        obtain ⟨s', h1, h2, h3, h4, h5⟩ :=
           kstep_fireIdle (cfg := cfg) (losses := losses) (delays := delays) fuel hk hwire hit hp hrest
-        exact ⟨s', _, _, h1, h2, AStep.fireIdle a q t _ id nl nd hwire hit, h3, h4⟩
+        exact ⟨s', _, _, _, h1, h2, AStep.fireIdle a q t _ id nl nd hwire hit, h3, h4, h5⟩
       | cons i is =>
-        obtain ⟨s', h1, h2, h3, h4⟩ :=
+        obtain ⟨s', h1, h2, h3, h4, h5⟩ :=
           kstep_fireNext (cfg := cfg) (losses := losses) (delays := delays) fuel hk hwire hit hp hrest
-        exact ⟨s', _, _, h1, h2, AStep.fireNext a q _ t _ id nl nd i is hwire hit ⟨rfl, rfl⟩, h3, h4⟩
+        exact ⟨s', _, _, _, h1, h2, AStep.fireNext a q _ t _ id nl nd i is hwire hit ⟨rfl, rfl⟩, h3, h4, h5⟩
   · -- an entry of the source process
     have hrest : rest.Perm (a.wire.entries ++ a.pend.toList) := by
       have : (q :: (a.wire.entries ++ a.pend.toList)).Perm (q :: rest) := by
@@ -148,18 +147,18 @@ theorem kstep (fuel : Nat) {outs : List (Int × ℚ)} (hk : KInv s a)
       rw [hsrc] at hsa
       cases arr with
       | nil =>
-        obtain ⟨s', h1, h2, h3, h4⟩ :=
+        obtain ⟨s', h1, h2, h3, h4, h5⟩ :=
           kstep_srcInitEnd (cfg := cfg) (losses := losses) (delays := delays) fuel hk hsrc hp hrest
-        exact ⟨s', _, [], h1, h2, AStep.srcInitEnd a q _ hsrc rfl rfl, h3, by simpa using h4⟩
+        exact ⟨s', _, [], [], h1, h2, AStep.srcInitEnd a q _ hsrc rfl rfl, h3, by simpa using h4, by simpa using h5⟩
       | cons gap arr =>
         have hgap : 0 ≤ gap := hsa.2.2.1 gap (by simp)
-        obtain ⟨s', h1, h2, h3, h4⟩ :=
+        obtain ⟨s', h1, h2, h3, h4, h5⟩ :=
           kstep_srcInitWait (cfg := cfg) (losses := losses) (delays := delays) fuel hk hsrc hgap hp hrest
-        exact ⟨s', _, [], h1, h2, AStep.srcInitWait a q _ gap arr hsrc rfl rfl, h3, by simpa using h4⟩
+        exact ⟨s', _, [], [], h1, h2, AStep.srcInitWait a q _ gap arr hsrc rfl rfl, h3, by simpa using h4, by simpa using h5⟩
     | ending q0 =>
       simp only [hsrc, SPhase.entries, List.mem_singleton] at hq; subst hq
-      obtain ⟨s', h1, h2, h3, h4⟩ := kstep_srcEnd (cfg := cfg) (losses := losses) (delays := delays) fuel hk hsrc hp hrest
-      exact ⟨s', _, [], h1, h2, AStep.srcEnd a q hsrc, h3, by simpa using h4⟩
+      obtain ⟨s', h1, h2, h3, h4, h5⟩ := kstep_srcEnd (cfg := cfg) (losses := losses) (delays := delays) fuel hk hsrc hp hrest
+      exact ⟨s', _, [], [], h1, h2, AStep.srcEnd a q hsrc, h3, by simpa using h4, by simpa using h5⟩
     | wait next arr q0 =>
       simp only [hsrc, SPhase.entries, List.mem_singleton] at hq; subst hq
       rw [hsrc] at hsa
@@ -172,15 +171,14 @@ theorem kstep (fuel : Nat) {outs : List (Int × ℚ)} (hk : KInv s a)
           exact hi.not_eid_lt hmin (mem_pend hpe) hu.1 (hu.2.trans hsa.1.symm) (hsa.2.2.2 u hpe)
       cases arr with
       | nil =>
-        obtain ⟨s', h1, h2, h3, h4⟩ :=
+        obtain ⟨s', h1, h2, h3, h4, h5⟩ :=
           kstep_srcPutEnd (cfg := cfg) (losses := losses) (delays := delays) fuel hk hsrc hn hsa.2.2.1 hp hrest
-        exact ⟨s', _, [], h1, h2, AStep.srcPutEnd a q _ _ next hsrc hn ⟨rfl, rfl⟩ ⟨rfl, rfl⟩, h3, by simpa using h4⟩
+        exact ⟨s', _, [], [], h1, h2, AStep.srcPutEnd a q _ _ next hsrc hn ⟨rfl, rfl⟩ ⟨rfl, rfl⟩, h3, by simpa using h4, by simpa using h5⟩
       | cons gap arr =>
         have hgap : 0 ≤ gap := hsa.2.1 gap (by simp)
-        obtain ⟨s', h1, h2, h3, h4⟩ :=
+        obtain ⟨s', h1, h2, h3, h4, h5⟩ :=
           kstep_srcPutWait (cfg := cfg) (losses := losses) (delays := delays) fuel hk hsrc hn hsa.2.2.1 hgap hp hrest
-        exact ⟨s', _, [], h1, h2,
-          AStep.srcPutWait a q _ _ next gap arr hsrc hn ⟨rfl, rfl⟩ ⟨rfl, rfl⟩ (Nat.lt_succ_self _), h3, by simpa using h4⟩
+        exact ⟨s', _, [], [], h1, h2, AStep.srcPutWait a q _ _ next gap arr hsrc hn ⟨rfl, rfl⟩ ⟨rfl, rfl⟩ (Nat.lt_succ_self _), h3, by simpa using h4, by simpa using h5⟩
   · -- the pending `StorePut` event
     have hpe : a.pend = some q := by
       cases hpe : a.pend with
@@ -195,9 +193,9 @@ theorem kstep (fuel : Nat) {outs : List (Int × ℚ)} (hk : KInv s a)
       exact this.cons_inv.symm
     by_cases hw : ∃ g t0 nl nd i is, a.wire = .W g t0 nl nd ∧ a.items = i :: is
     · obtain ⟨g, t0, nl, nd, i, is, hwire, hit⟩ := hw
-      obtain ⟨s', h1, h2, h3, h4⟩ :=
+      obtain ⟨s', h1, h2, h3, h4, h5⟩ :=
         kstep_putHand (cfg := cfg) (losses := losses) (delays := delays) fuel hk hpe hwire hit hp hrest
-      exact ⟨s', _, [], h1, h2, AStep.putHand a q _ g t0 nl nd i is hpe hwire hit ⟨rfl, rfl⟩, h3, by simpa using h4⟩
+      exact ⟨s', _, [], [], h1, h2, AStep.putHand a q _ g t0 nl nd i is hpe hwire hit ⟨rfl, rfl⟩, h3, by simpa using h4, by simpa using h5⟩
     · have hw' : a.wire.getQ = [] ∨ a.items = [] := by
         cases hwire : a.wire with
         | W g t0 nl nd =>
@@ -208,9 +206,9 @@ theorem kstep (fuel : Nat) {outs : List (Int × ℚ)} (hk : KInv s a)
         | init q0 => left; rfl
         | H g i q0 t0 nl nd => left; rfl
         | T t i q0 nl nd => left; rfl
-      obtain ⟨s', h1, h2, h3, h4⟩ :=
+      obtain ⟨s', h1, h2, h3, h4, h5⟩ :=
         kstep_putIdle (cfg := cfg) (losses := losses) (delays := delays) fuel hk hpe hw' hp hrest
-      exact ⟨s', _, [], h1, h2, AStep.putIdle a q hpe hw', h3, by simpa using h4⟩
+      exact ⟨s', _, [], [], h1, h2, AStep.putIdle a q hpe hw', h3, by simpa using h4, by simpa using h5⟩
 
 /-! ## the combined invariant -/
 
@@ -222,7 +220,7 @@ structure Inv (cfg : WireCfg ℚ) (losses delays arrivals : List ℚ) (s : KS) (
 /-- **one kernel step**: it is `.ok`, keeps the invariant and uses one unit of the step budget -/
 theorem inv_step (fuel : Nat) (h : Inv cfg losses delays arrivals s a) (hp : popMin s.agenda = some (q, rest)) :
     ∃ s' a', step (body cfg losses delays) (fuel + 1) s = .ok s' ∧ Inv cfg losses delays arrivals s' a' ∧ a'.mu + 1 ≤ a.mu := by
-  obtain ⟨s', a', new, h1, h2, h3, h4, h5⟩ := kstep fuel h.k h.a hp
+  obtain ⟨s', a', new, lf, h1, h2, h3, h4, h5, -⟩ := kstep fuel h.k h.a hp
   obtain ⟨g1, g2⟩ := astep_sound h.a (isMin_of_pop h.k hp).1 h3
   refine ⟨s', a', h1, ⟨h2, ?_⟩, g2⟩
   rw [h4, h5]; exact g1
